@@ -144,7 +144,8 @@ def evaluate_e2e(spec):
     pkts, bad, steered = apply_csum_plan(b, spec.get("csum", {}))
     wd = engine.workdir()
     other = {k: v for k, v in (spec.get("opts") or {}).items() if k != "c"}       # the option is independent of the others (-g, -a, -m)
-    o1 = oracle.run_e2e(b, wd, pkts=pkts, opts=dict(other, c=True), name="withc")
+    sub = {"inproc": False, "hashseed": "0"} if other.get("d") else {}       # log output needs a process of its own (the harness silences logging)
+    o1 = oracle.run_e2e(b, wd, pkts=pkts, opts=dict(other, c=True), name="withc", **sub)
     sig = oracle.base_failure(o1)
     if sig:
         return {"sig": "-c run: " + sig, "detail": (o1.run.exc or "")[-300:], "nontrivial": True, "labels": ["e2e"]}
@@ -197,6 +198,8 @@ def e2e_spec(draw):
         opts["a"] = True
     if draw(st.integers(0, 4)) == 0:
         opts["m"] = draw(st.sampled_from([[], ["443:8081"]]))
+    if draw(st.integers(0, 11)) == 0:
+        opts["d"] = draw(st.sampled_from(["INFO", "DEBUG"]))
     return {"conns": conns, "order": draw(st.lists(st.integers(0, 5), min_size=1, max_size=8)), "tseed": draw(st.integers(1, 500)), "csum": plan,
             "opts": opts}
 
